@@ -60,6 +60,10 @@ def shards(tier, seed):
             sh += mk('d=6,7 (iterative scheme): structured sparse patterns and scalar+bivector, tolerance 1e-9', spaces.cfg_pqr(*t), ('list', 'scalar+biv2'), 1, grid=0, ones=True, tol=True)
         for n in ('2DPGA', '3DPGA'):
             sh += mk('named custom bases: subsets <=2 blades x grid', spaces.NAMED[n], ('S', 2), 4, grid=3)
+    for d in (1, 2):
+        for order in (spaces.sig(d), list(reversed(spaces.sig(d)))):
+            sh.append(dict(stratum='all signature orderings of d<=2 one after the other in one process (two orders)',
+                           seq=[mk('seq', spaces.cfg_sig(s), ('S', 2), 1, generic=2, grid=2)[0] for s in order]))
     return sh
 
 
@@ -94,6 +98,9 @@ def is_one(refelem, eq):
 
 
 def run_shard(shard):
+    if 'seq' in shard:
+        from ..common import run_sequence
+        return run_sequence(run_shard, shard)
     res = Result()
     cfg = shard['cfg']
     alg = make_algebra(cfg)
